@@ -1,6 +1,10 @@
 //! Verification harness for jix/flussab: property-based testing and fuzzing oracles.
 pub mod alloc;
+pub mod btor;
+pub mod drivers;
 pub mod engine;
+pub mod gen;
+pub mod inputs;
 pub mod props;
 pub mod reader_model;
 pub mod source;
